@@ -288,11 +288,16 @@ fn finalize_entry(fs: &Fs, entry: WorkingEntry, game: Game, emitter: &impl Emitt
     let texture_data = finalize_entry_texture(fs, &mut specs, &entry.path, entry.loaded_texture.as_ref())?;
 
     // More defaults
+    let next_power_of_two = |img_name: &str, img_dim: u32| {
+        u32::checked_next_power_of_two(img_dim).ok_or_else(|| emitter.emit(error!(
+            "{img_name} = {img_dim} is too large (there is no next power of 2 to infer the runtime size from)"
+        )))
+    };
     if let Some(img_width) = specs.img_width.into_option() {
-        specs.rt_width.set_soft_if_missing(u32::next_power_of_two(img_width));
+        specs.rt_width.set_soft_if_missing(next_power_of_two("img_width", img_width)?);
     }
     if let Some(img_height) = specs.img_height.into_option() {
-        specs.rt_height.set_soft_if_missing(u32::next_power_of_two(img_height));
+        specs.rt_height.set_soft_if_missing(next_power_of_two("img_height", img_height)?);
     }
 
     // Now check that rt_width and rt_height were filled.
